@@ -25,7 +25,8 @@ STUBS = ["Circuit.sblock_queue = list-backed stub; start sequence = real resolve
          "CBlock sender evaluated by calling the real eval_block() after each input change"]
 ASSUMPTIONS = ["filters are pure"]
 EXPECT_LABELS = {'all': ['log-length', 'log-entry', 'sync', 'pool-log']}
-EXPECT_NOTES = {'all': ['unchanged-assignment', 'changed-assignment', 'equal-not-identical', 'nan-reassigned']}
+EXPECT_NOTES = {'all': ['unchanged-assignment', 'changed-assignment', 'equal-not-identical', 'nan-reassigned',
+                        'glitch-two-events-in-one-settle']}
 FLOORS = {'quick': {'paths': 500, 'checks': 2000}, 'thorough': {'paths': 5000, 'checks': 20000}}
 
 NAN = float('nan')        # one shared object: equal-by-identity but unequal to itself
@@ -199,6 +200,60 @@ def scen_pool(env, sender, n):
     env.check('pool-output', (src.output is prev) or (src.output == prev and type(src.output) is type(prev)))
 
 
+def scen_cblock_in_simulator(env):
+    """a combinational sender evaluated by the REAL simulator (hand-driven _simulate, solver-chosen evaluation order):
+    when the block is evaluated twice while the circuit settles (a glitch: F -> T -> F, depending on the order) every
+    one of those changes is an event with the right 'previous'; a re-evaluation with an unchanged value is none; the
+    first evaluation reports previous = UNDEF"""
+    from harness.simdrive import Driver
+    drv = Driver()
+    sink = []
+    SinkProbe('o0', sink=sink)
+    returned = []
+
+    def f_and(a, b):
+        r = bool(a) and not bool(b)
+        returned.append(r)
+        return r
+    v0 = env.int('i0_init')
+    i0 = edzed.Input('i0', initdef=v0)
+    # n1 = not not i0 arrives two evaluations after a change of i0: src (a direct successor of i0, like n0) may be
+    # evaluated first with the old n1 - settled value: always False, glitch: True
+    edzed.Not('n0').connect(i0)
+    edzed.Not('n1').connect('n0')
+    src = edzed.FuncBlock('src', func=f_and, on_output=edzed.Event('o0', 'ev_o0')).connect(i0, 'n1')
+    drv.start()
+    err = drv.run_to_idle()
+    env.check('sync', err is None, info=lambda: err)
+    if err:
+        return
+    per_settle = []
+    for k in range(2):
+        v = env.int(f'v{k}')
+        n0 = len(sink)
+        i0.event('put', value=v)
+        err = drv.run_to_idle()
+        env.check('sync', err is None, info=lambda: err)
+        if err:
+            return
+        per_settle.append(len(sink) - n0)
+    drv.close()
+    # expected: the successive CHANGES among the values the block's function returned, starting from UNDEF
+    expected = []
+    prev = UNDEF
+    for r in returned:
+        if prev is UNDEF or prev != r:
+            expected.append((prev, r))
+            prev = r
+    if max(per_settle, default=0) >= 2:
+        env.note('glitch-two-events-in-one-settle')
+    got = [(d['previous'], d['value']) for _, _, d in sink]
+    env.check('log-length', len(got) == len(expected), info=lambda: (got, expected, returned))
+    env.check('log-entry', all((g[0] is e[0] or g[0] == e[0]) and g[1] == e[1] for g, e in zip(got, expected))
+              and all(d['source'] == 'src' and d['trigger'] == 'output' for _, _, d in sink), info=lambda: (got, expected))
+    env.check('output', src.output == (returned[-1] if returned else UNDEF))
+
+
 def shards(tier):
     b = BOUNDS[tier]
     out = []
@@ -211,6 +266,7 @@ def shards(tier):
                 out.append({'name': f'sym {sender} out={n_out} every={n_every} n={n}', 'scenario': 'scen_sym',
                             'params': {'sender': sender, 'n': n, 'n_out': n_out, 'n_every': n_every},
                             'cost': 6 ** (n_out + n_every)})
+    out.append({'name': 'cblock sender inside the simulator (glitch)', 'scenario': 'scen_cblock_in_simulator', 'cost': 5})
     for sender in ('settable', 'cblock'):
         out.append({'name': f'pool {sender}', 'scenario': 'scen_pool',
                     'params': {'sender': sender, 'n': b['pool_assignments']}, 'cost': 50})
